@@ -71,13 +71,13 @@ TStep ==
                        /\ (e.k <= 20 /\ e.len < 1000 => e.count = e.len * Pow2(e.k))
                        /\ PublicOK(e, t)
               ELSE \* fallback: k is the exponent of Count / Len when Len > 0
-                   LET seen2 == IF e.op \in {"new", "reset"} THEN {} ELSE s.seen \cup {e.v}
+                   LET seen2 == IF e.op \in {"new", "reset"} THEN {} ELSE s.seen \cup {e.v, IF e.v % 3 = 0 /\ e.lite = 1 THEN e.v - 1 ELSE e.v}
                        cap2 == IF e.op = "new" THEN e.size ELSE s.cap
-                       ks == {j \in 0..24 : e.len * Pow2(j) = e.count}
+                       ks == {j \in 0..18 : e.len * Pow2(j) = e.count}
                        k2 == IF e.len = 0 \/ ks = {} THEN s.k ELSE CHOOSE j \in ks : TRUE
                    IN  /\ (e.len > 0 /\ e.count > 0 => ks # {})          \* Count is Len times a power of two
                        /\ (e.len = 0 => e.count = 0)
-                       /\ (e.op = "add" => k2 >= s.k)                     \* which does not decrease
+                       /\ (e.op \in {"add", "addq"} => k2 >= s.k)             \* which does not decrease
                        /\ s' = [buf |-> {}, k |-> IF e.op \in {"new", "reset"} THEN 0 ELSE k2, cap |-> cap2, seen |-> seen2]
                        /\ PublicOK(e, [buf |-> {}, k |-> k2, cap |-> cap2, seen |-> seen2])
 
